@@ -379,16 +379,47 @@ def placementEvents (time : Int) (p : PlacementS) : SimM (List SEvent) := do
 
 /-! ### the scheduler-restart computation -/
 
-/-- `__get_next_scheduler_event`. -/
+/-- What `__get_next_scheduler_event` reads from the simulator besides the flags, the
+time of the last scheduler start and the time of the triggering event. -/
+structure RestartIn where
+  queueEmpty : Bool        -- the event queue is empty
+  schedEmpty : Bool        -- no schedulable task
+  runningEmpty : Bool      -- no placed / future-placed task
+  minCompletion : Int      -- earliest estimated completion (+ scheduler delay), `sys.maxsize`-based when none
+  allBusy : Bool           -- every schedulable task is RUNNING or SCHEDULED
+  full : Bool              -- every worker pool is full
+  noFit : Bool             -- no (task, worker) pair is compatible
+  relT : Int               -- next TASK_RELEASE time + delay (or maxsize)
+  updT : Int               -- next UPDATE_WORKLOAD time (or maxsize)
+
+/-- The decision of `__get_next_scheduler_event`, as a pure function of what it reads:
+the type of the event to queue (SIMULATOR_END or SCHEDULER_START) and its time. -/
+def restart (f : SimFlags) (lastSchedStart evTime : Int) (i : RestartIn) : Nat × Int :=
+  let start0 : Int :=
+    if f.schedFrequency ≤ 0 then evTime + 1
+    else if lastSchedStart + f.schedFrequency < evTime then evTime + 1 else lastSchedStart + f.schedFrequency
+  if start0 ≥ f.loopTimeout then (ET.simulatorEnd, f.loopTimeout)
+  else if i.queueEmpty && i.schedEmpty && i.runningEmpty then (ET.simulatorEnd, evTime + 1)
+  else if !i.runningEmpty && f.runAtWorkerFree then
+    let start := max start0 (i.minCompletion + 1)
+    if start ≥ f.loopTimeout then (ET.simulatorEnd, f.loopTimeout) else (ET.schedulerStart, start)
+  else if i.schedEmpty || i.allBusy || i.full || i.noFit then
+    let adjusted := max start0 (min (min i.minCompletion i.relT) i.updT)
+    if start0 != adjusted then
+      if adjusted ≥ f.loopTimeout then (ET.simulatorEnd, f.loopTimeout) else (ET.schedulerStart, adjusted)
+    else (ET.schedulerStart, start0)
+  else (ET.schedulerStart, start0)
+
+/-- `__get_next_scheduler_event`: gather the inputs (in the order in which the source
+evaluates them, so that an exception is raised at the same point), decide with
+`restart`, create the event. -/
 def nextSchedulerEvent (evTime : Int) : SimM SEvent := do
   let s ← get
   let f := s.flags
-  let mut start : Int :=
+  let start0 : Int :=
     if f.schedFrequency ≤ 0 then evTime + 1
-    else
-      let nxt := s.lastSchedStart + f.schedFrequency
-      if nxt < evTime then evTime + 1 else nxt
-  if start ≥ f.loopTimeout then
+    else if s.lastSchedStart + f.schedFrequency < evTime then evTime + 1 else s.lastSchedStart + f.schedFrequency
+  if start0 ≥ f.loopTimeout then
     return ← mkEvent ET.simulatorEnd f.loopTimeout
   let placed ← placedTasks
   let running := placed ++ s.future.map (·.1)
@@ -407,42 +438,34 @@ def nextSchedulerEvent (evTime : Int) : SimM SEvent := do
   let sched ← schedulable evTime
   let nextRelease ← nextOfType ET.taskRelease
   let nextUpdate ← nextOfType ET.updateWorkload
-  let s ← get
-  let nextEvent := s.queue[0]?
-  if nextEvent.isNone && sched.isEmpty && running.isEmpty then
-    return ← mkEvent ET.simulatorEnd (evTime + 1)
-  else if !running.isEmpty && f.runAtWorkerFree then
-    start := max start (minCompletion + 1)
-    if start ≥ f.loopTimeout then
-      return ← mkEvent ET.simulatorEnd f.loopTimeout
-  else
-    let taskOf (t : TaskId) : Option TaskS := (s.graphs[t.g]?).bind (·.task? t.t)
-    let allBusy := sched.all (fun t =>
+  let s1 ← get
+  let taskOf (t : TaskId) : Option TaskS := (s1.graphs[t.g]?).bind (·.task? t.t)
+  let inp : RestartIn := {
+    queueEmpty := s1.queue[0]?.isNone
+    schedEmpty := sched.isEmpty
+    runningEmpty := running.isEmpty
+    minCompletion := minCompletion
+    allBusy := sched.all (fun t =>
       match taskOf t with
       | some x => x.state == .running || x.state == .scheduled
       | none => false)
-    let full := s.pools.all (·.isFull)
+    full := s1.pools.all (·.isFull)
     -- every (task, worker-with-the-task's-profile-loaded) pair has no compatible strategy
-    let noFit := sched.all (fun t =>
+    noFit := sched.all (fun t =>
       match taskOf t with
-      | some x => s.pools.all (fun p => p.workers.all (fun w =>
+      | some x => s1.pools.all (fun p => p.workers.all (fun w =>
           !w.availProf.has x.profile || (x.strategies.filter w.canAccommodate).isEmpty))
       | none => false)
-    if sched.isEmpty || allBusy || full || noFit then
-      let relT : Int := match nextRelease with
-        | some e => e.ev.time + f.schedDelay
-        | none => maxsize
-      let updT : Int := match nextUpdate with
-        | some e => e.ev.time
-        | none => maxsize
-      let nextT := min (min minCompletion relT) updT
-      let adjusted := max start nextT
-      if start != adjusted then
-        if adjusted ≥ f.loopTimeout then
-          return ← mkEvent ET.simulatorEnd f.loopTimeout
-        start := adjusted
-  let e ← mkEvent ET.schedulerStart start
-  modify fun s => { s with nextSched := some e.ev.eid }
+    relT := match nextRelease with
+      | some e => e.ev.time + f.schedDelay
+      | none => maxsize
+    updT := match nextUpdate with
+      | some e => e.ev.time
+      | none => maxsize }
+  let d := restart f s.lastSchedStart evTime inp
+  let e ← mkEvent d.1 d.2
+  if d.1 == ET.schedulerStart then
+    modify fun s => { s with nextSched := some e.ev.eid }
   return e
 
 /-! ### handlers -/
@@ -461,12 +484,17 @@ def handleSchedulerStart (ev : SEvent) : SimM Unit := do
     set { s with decisions := rest, lastPlacements := some d }
     addEvent (← mkEvent ET.schedulerFinished (ev.ev.time + d.runtime))
 
+/-- Number of PLACE_TASK decisions with / without a worker pool (the `num_placed` /
+`num_unplaced` columns of the SCHEDULER_FINISHED row). -/
+def placedCount (ps : List PlacementS) : Nat := (ps.filter (fun p => p.kind == .place && p.isPlaced)).length
+def unplacedCount (ps : List PlacementS) : Nat := (ps.filter (fun p => p.kind == .place && !p.isPlaced)).length
+
 def handleSchedulerFinish (ev : SEvent) : SimM Unit := do
   let s ← get
   let some d := s.lastPlacements | throw .typeError
   let time := ev.ev.time
-  let numPlaced := (d.placements.filter (fun p => p.kind == .place && p.isPlaced)).length
-  let numUnplaced := (d.placements.filter (fun p => p.kind == .place && !p.isPlaced)).length
+  let numPlaced := placedCount d.placements
+  let numUnplaced := unplacedCount d.placements
   row [istr time, "SCHEDULER_FINISHED", istr (time - s.lastSchedStart), nstr numPlaced, nstr numUnplaced, "<true_runtime>"]
   let mut evs : List SEvent := []
   for p in d.placements do
@@ -556,24 +584,38 @@ def finishRemove (t : TaskId) (time : Int) : SimM Unit := do
   logE (.finish t time)
   modify fun s => { s with finishedTasks := s.finishedTasks + 1 }
 
-/-- Second part: the TASK_FINISHED / TASK_GRAPH_FINISHED / MISSED_* rows and counters. -/
+/-- What `__handle_task_finished` writes for one finished task: the CSV rows, in order,
+and the increments of the end-of-run counters. A pure function of the task, its graph
+(after the task finished), the graph's release timestamp and the event time. -/
+structure FinishOut where
+  rows : List Row
+  dFinishedGraphs : Nat
+  dMissedGraphDeadlines : Nat
+  dMissedTaskDeadlines : Nat
+
+def finishOut (x : TaskS) (g : GraphS) (ts : String) (tl : String) (time : Int) : FinishOut :=
+  let r1 : List Row := [[istr time, "TASK_FINISHED", x.name, ts, g.name, istr x.completion, istr x.deadline, tl]]
+  let tard : Int := if g.deadline > time then 0 else time - g.deadline
+  let r2 : List Row := if g.isComplete then [[istr time, "TASK_GRAPH_FINISHED", g.name, istr g.deadline, istr tard]] else []
+  let r3 : List Row := if time > x.deadline then [[istr time, "MISSED_DEADLINE", x.name, ts, istr x.deadline, tl]] else []
+  let r4 : List Row := if time > g.deadline then [[istr time, "MISSED_TASK_GRAPH_DEADLINE", g.name, istr g.deadline]] else []
+  { rows := r1 ++ r2 ++ r3 ++ r4
+    dFinishedGraphs := if g.isComplete then 1 else 0
+    dMissedGraphDeadlines := if g.isComplete && g.deadline < time then 1 else 0
+    dMissedTaskDeadlines := if time > x.deadline then 1 else 0 }
+
+/-- Second part: the TASK_FINISHED / TASK_GRAPH_FINISHED / MISSED_* rows and counters
+(row emission and counter updates never raise, so their interleaving is immaterial). -/
 def finishRows (t : TaskId) (time : Int) : SimM Unit := do
   let x ← getTask t
   let g ← getGraph t.g
   let m := (← get).metas[t.g]?
   let ts := nstr ((m.map (·.timestamp)).getD 0)
-  row [istr time, "TASK_FINISHED", x.name, ts, g.name, istr x.completion, istr x.deadline, tlabel t]
-  if g.isComplete then
-    modify fun s => { s with finishedGraphs := s.finishedGraphs + 1 }
-    let tard : Int := if g.deadline > time then 0 else time - g.deadline
-    row [istr time, "TASK_GRAPH_FINISHED", g.name, istr g.deadline, istr tard]
-    if g.deadline < time then
-      modify fun s => { s with missedGraphDeadlines := s.missedGraphDeadlines + 1 }
-  if time > x.deadline then
-    modify fun s => { s with missedTaskDeadlines := s.missedTaskDeadlines + 1 }
-    row [istr time, "MISSED_DEADLINE", x.name, ts, istr x.deadline, tlabel t]
-  if time > g.deadline then
-    row [istr time, "MISSED_TASK_GRAPH_DEADLINE", g.name, istr g.deadline]
+  let o := finishOut x g ts (tlabel t) time
+  for r in o.rows do row r
+  modify fun s => { s with finishedGraphs := s.finishedGraphs + o.dFinishedGraphs,
+                           missedGraphDeadlines := s.missedGraphDeadlines + o.dMissedGraphDeadlines,
+                           missedTaskDeadlines := s.missedTaskDeadlines + o.dMissedTaskDeadlines }
 
 /-- Third part: `notify_task_completion`, closed-loop follow-up, new events. -/
 def finishNotify (t : TaskId) (time : Int) : SimM Unit := do
